@@ -2,7 +2,7 @@
 
 TRUSTED = {
     'extraction': 'extraction: functions are re-extracted from /repo on every run; rewrites are limited to the named kinds '
-                  '(strip attributes/async/await, listed type-path rewrites, inserted contracts/ghost arguments); the token '
+                  '(strip attributes/async/await, listed type-path rewrites, inserted contracts/ghost arguments, the mechanical desugarings of format! / json! / for / match listed in DESIGN section 2); the token '
                   'stream of every piece is re-checked against the source (see functions_under_contract[].edits)',
     'sequential': 'the ghost store model is sequential: no claim about interleavings of threads/tasks follows from it',
     'scru128': 'scru128: as_bytes/to_bytes are the big-endian bytes of to_u128, from/from_bytes invert them, timestamp() == id >> 80, '
@@ -369,7 +369,7 @@ prop('C17',
      level='proof',
      claim='Verus, unbounded, on the real start-up folds: handlers::serve keeps, per name, the latest .register of the history up to the '
            'threshold that was not cancelled by an .unregister / .unregistered carrying its handler id (split at the LAST dot of '
-           'the topic, handler id = the registering frame id); generators::serve keeps, per name, the last of .spawn / .spawn.error; commands::serve registers every historical .define in '
+           'the topic, handler id = the registering frame id) and starts the retained registrations in increasing order of their registering id, each exactly once; generators::serve keeps, per name, the last of .spawn / .spawn.error; commands::serve registers every historical .define in '
            'order and does nothing else before the threshold (no historical .call is executed); a duplex generator that is (re)spawned subscribes to its input from just after the .start frame this spawn appended, so earlier .send frames are not fed to it again. '
            'The clause "independently of what exists under the same name in other contexts" is stated as a separate obligation and '
            'fails on this tree (known finding: maps keyed by name only); with all frames in one context the two folds agree (lemma).',
@@ -377,9 +377,10 @@ prop('C17',
      units=['verus:restart_ops', 'verus:handler_ops'],
      obligations=['restart.handlers.*', 'restart.generators.*', 'restart.commands.*', 'restart_ops.handlers_replay_fold.body',
                   'restart_ops.generators_compaction_fold.body', 'restart_ops.commands_startup_fold.body',
+                  'restart_ops.handlers_start_retained_in_id_order.body',
                   'generator.spawn.*', 'handler_ops.spawn_duplex_options.body'],
      trusted=['extraction', 'sequential', 'scru128'],
      extra_assumptions=['std HashMap<String,_> (key model, borrowed &str keys), String extensionality, rsplit_once / strip_suffix / ends_with as text '
                         'functions, serde_json::Value accessors -- all assumed; `match suffix {"..." => ..}` is rewritten to the equivalent if/else chain'],
      explanation='The two replay loops are extracted verbatim (await stripped) and verified against fold functions written from the property.',
-     not_decided='starting the retained handlers in id order (sort_by_key), what handle_define does with a definition (nu engine), crash restart')
+     not_decided='what handle_define does with a definition (nu engine), crash restart (the bounded restart model restarts on a copy of the directory)')
